@@ -140,6 +140,11 @@ def twins(g, rng):
         for v in ([tuple(members)], [list(members)]):
             fam.append(({'a': {rule: v}}, 'type-twin'))
             fam.append(({'a': {'type': 'dict', 'valuesrules': {rule: v}}}, 'type-twin'))
+    # empty-container twins: {} / set() / [] / () / '' as constraint
+    for rule in ('schema', 'allowed', 'items', 'forbidden', 'dependencies'):
+        for v in ({}, set(), [], (), ''):
+            fam.append(({'a': {rule: v}}, 'type-twin'))
+            fam.append(({'a': {'type': 'dict', 'valuesrules': {rule: v}}}, 'type-twin'))
     # context twins: the same rule set as bulk rule set, as *of definition, as field rules
     for rs in ({'default': 1}, {'coerce': 'to_int'}, {'rename': 'q'}, {'type': 'integer', 'default_setter': 'const5'}, {'purge_unknown': True},
                {'type': 'integer'}, {'min': 1, 'max': 2}):
